@@ -160,6 +160,29 @@ def replay(o, tree):
             import shutil
             shutil.rmtree(d, ignore_errors=True)
     cfg = o.get("cfg") or {}
+    if cfg.get("kind") == "linkfiles":
+        # 1..3 linked files whose statements are all known as they are read (base given up front) or not; every label followed by
+        # '.word <itself>' must find its own address in the image
+        bad = []
+        jobs = []
+        for pre in (".link 2000\n", ""):
+            for bodies in (["f0: .word f0\n.byte 1, 2\n"], ["f0: .word f0\n.byte 1, 2\n", "f1: .word f1\nnop\n"], ["f0: .word f0\n.byte 1, 2\n", "f1: .word f1\nnop\n", "f2: .word f2\n"],
+                           ["mov #1, r0\nq0: .byte 1, 2\n", ".byte 3, 4\nq1: .byte 5, 6\n", "f2: .word f2\n"]):
+                srcs = [pre + bodies[0]] + bodies[1:]
+                jobs.append({"kind": "asm", "sources": srcs, "symbols": True})
+        res = driver.native(jobs, tree)
+        for j, r in zip(jobs, res):
+            if r["status"] != "ok":
+                bad.append((j["sources"], r["status"])); continue
+            img = bytes.fromhex(r["code_hex"])
+            for k, v in r["symbols"].items():
+                nm = k.rsplit(".", 1)[-1]
+                if nm.startswith("f"):
+                    off = v - r["base"]
+                    if not (0 <= off <= len(img) - 2) or int.from_bytes(img[off:off + 2], "little") != v:
+                        bad.append((j["sources"], nm, oct(v), "the word at its address holds", img[off:off + 2].hex() if 0 <= off <= len(img) - 2 else "outside the image"))
+        if bad:
+            return dict(jobs=jobs[:2], expected="each label's '.word <label>' lies at the label's address", observed=bad[:3], reproduced=True)
     if cfg.get("kind") == "repeat":
         from contracts import c16
         jobs, out = c16._pairs(tree, c16.PAIRS)
